@@ -137,17 +137,13 @@ pub trait NamedConceptConfiguration: Default + Clone + Debug + Send {
     fn extract_name_from_file(&self, value: &FileName) -> Option<FileName> {
         let mut file = *value;
 
-        if !fatal_panic!(from self, when file.strip_prefix(self.get_prefix().as_bytes()),
-                    "Stripping the prefix \"{}\" from the file name \"{}\" leads to invalid content.",
-                    self.get_prefix(), file)
-        {
+        // a file whose name without prefix or suffix is not a valid name does not belong to
+        // this concept
+        if !matches!(file.strip_prefix(self.get_prefix().as_bytes()), Ok(true)) {
             return None;
         }
 
-        if !fatal_panic!(from self, when file.strip_suffix(self.get_suffix().as_bytes()),
-                    "Stripping the suffix \"{}\" from the file name \"{}\" leads to invalid content.",
-                    self.get_suffix(), file)
-        {
+        if !matches!(file.strip_suffix(self.get_suffix().as_bytes()), Ok(true)) {
             return None;
         }
 
